@@ -117,7 +117,26 @@ def run(ctx, lean_ok):
     lines, recs = [], []
     worst_res = 0.0
     nfd = {'dlnphi_dlnP': 0, 'gibbs_duhem': 0, 'phi_to_one': 0, 'skipped_discontinuous': 0}
-    for comp, _ in gen_cases(ctx):
+    def items():
+        # every generated case, and after a quarter of them a FOLLOW-UP on the same FluidMixture object that shares all but one
+        # of (masses, T, P) with the call before: anything remembered between calls under an incomplete key answers the
+        # follow-up with the previous state's values, which the correspondences and predicates below judge against the
+        # inputs of the follow-up itself
+        for comp, _ in gen_cases(ctx):
+            first = yield_case(comp)
+            yield first
+            if r.random() < 0.25:
+                fm, d, m, T, P, _tag = first[1:]
+                w = r.choice(['m', 'T', 'P'])
+                if w == 'm':
+                    m = mixgen.masses(r, len(comp))
+                elif w == 'T':
+                    T = min(max(T + r.choice([-1, 1]) * r.uniform(5., 60.), 260.), 450.)
+                else:
+                    P = min(max(P * math.exp(r.choice([-1, 1]) * r.uniform(0.3, 2.)), 1e4), 1e8)
+                yield (comp, fm, d, m, T, P, 'follow-up:' + w)
+
+    def yield_case(comp):
         n = len(comp)
         fm, d = mixgen.mixture(r, comp=comp)
         m = mixgen.masses(r, n)
@@ -140,6 +159,10 @@ def run(ctx, lean_ok):
         else:
             T, P = mixgen.state(r)
             tag = 'uniform'
+        return (comp, fm, d, m, T, P, tag)
+
+    for comp, fm, d, m, T, P, tag in items():
+        n = len(comp)
         e = mixgen.eos_args(fm)
         args = (T, P, m, e['Mol_wt'], e['Pc'], e['Tc'], e['omega'], e['delta'].copy(), e['Aij'], e['Bij'], e['delta_groups'], e['calc_delta'])
         with np.errstate(all='ignore'):
